@@ -6,6 +6,7 @@ R3b each reported schedule is forced on the real MultiEpoch through the wrapper'
 violation; R3c stress run; R4 Trace_EpochSet judges replays and the stress run."""
 import json, os, re
 from core import Inconclusive, sha, REPO
+from props.epochops import run_epochops
 
 RULES = [{"kind": "fieldtype", "struct": "MultiEpoch", "field": "mu", "new": "verifRWMutex", "keepImport": "sync"}]
 
@@ -134,6 +135,9 @@ def run(ctx):
             ctx.violation({"op": "stress", "outcome": o["outcome"]},
                           f"stress run: outcome={o['outcome']} {o['detail']}; answers differing from the idle server: {bad}; bad listings: {badl}"[:900],
                           obs={k: v for k, v in o.items() if k not in ("pairs", "listings")})
+    # ---- growth: sequential meaning of the epoch set + the --watch handler (EpochOps.tla)
+    if not ctx.replay or ctx.replay.get("sig", {}).get("op") == "epochops":
+        run_epochops(ctx, q)
     if model_viol:
         ctx.extra["model_invariants_violated"] = model_viol
     if unbalanced:
